@@ -30,7 +30,7 @@ META = {
     "level": "model_checking",
     "level_text": "TLC exhaustively explores all histories of up to 2 (quick; thorough: 2 with the wide alphabet and 3 with the narrow "
                   "one) operations from four initial histories (empty table; created instance with collections; loaded instance with "
-                  "static column; row made by a blind update) over an alphabet of 86 / ~300 operations, small value domains (values 1..2, "
+                  "static column; row made by a blind update) over an alphabet of 82 / 229 operations, small value domains (values 1..2, "
                   "lists up to 3).  Each reachable edge is executed on the real mapper and decided by comparing the interpreter's "
                   "table, the instance and a fresh read with the specification; coverage of edges is reported (edges behind a "
                   "diverging edge cannot be replayed).",
@@ -149,14 +149,24 @@ def classify(M, mode, op, pre, post, code, out, ok, readback, statements):
                 twice = [c for p, _ in per for c in p if c not in ("*", "k", "ck") and
                          len(set(k for q, k in per if c in q)) > 1]
                 if twice and all(f in twice for f in fields):
-                    return "save:unmodified-column-written", what
+                    cls = "+".join(sorted(set({"a": "scalar", "b": "scalar", "st": "static"}.get(f, "collection") for f in fields)))
+                    kinds = set(k for q, k in per for f in fields if f in q)
+                    return ("save:unmodified-column-deleted" if "delete" in kinds else "save:unmodified-column-assigned:%s" % cls), what
             changed = set(d.split(".")[-1] for d in M.diff_projection(pre["db"], post["db"], "db."))
-            if any(f not in changed and (f in touched or "*" in touched) for f in fields):
-                return "save:unmodified-column-written", what
+            cls = "+".join(sorted(set({"a": "scalar", "b": "scalar", "st": "static", "mk": "marker"}.get(f, "collection") for f in fields)))
+            extra = [f for f in fields if f not in changed and (f in touched or "*" in touched)]
+            if extra:
+                deleted = set()
+                for st in _parsed(M, statements):
+                    if st["kind"] == "delete":
+                        deleted |= _columns_of(st)
+                if all(f in deleted for f in extra):
+                    return "save:unmodified-column-deleted", what
+                return "save:unmodified-column-assigned:%s" % cls, what
             if any(f in changed and f not in touched and "*" not in touched for f in fields):
-                return "save:modified-column-not-written", what
+                return "save:modified-column-not-written:%s" % cls, what
             if name in ("isave", "batch"):
-                return "save:wrong-value", what
+                return "save:wrong-value:%s" % "+".join(fields), what
             return "%s:wrong-value:%s" % (name, "+".join(fields)), what
         return "%s:row-differs:%s" % (name, "+".join(fields)), what
     if readback:
